@@ -148,7 +148,7 @@ def run(chk, tier, seed, replay=None):
                 'kinds (failing subtests, unexpected successes, two-event tests, decorator skips) and passing / failing / raising doctest cases x messages '
                 'built from 12 character classes (markup, ]]>, newlines, C0 controls, NUL, DEL/C1, lone '
                 'surrogates, U+FFFE/F, astral, non-ASCII, 20 kB) x odd test names (dots, spaces, markup, '
-                'non-ASCII, control characters) x --repeat / --buffer; every report file is parsed with '
+                'non-ASCII, control characters) x --repeat / --buffer, in-process and with the layers in subprocesses (-j N, resume: each process writes its own files); every report file is parsed with '
                 'expat and TLC compares it with the recorded run; distinct = distinct (kinds, classes, names, options)')
     chk.assumptions += ['the Unicode range is covered by class partition (one or two members per class)',
                         'doctest cases are DocTestCase objects built from generated sources (DocFileCase / manuel are not generated)']
@@ -178,14 +178,48 @@ def run(chk, tier, seed, replay=None):
                 kinds.append('subfail')
             n += 1
             cases.append(make_case('x%d' % n, rng, kinds, mc, nm))
+        # layers run in subprocesses (-j N, or resumed after layers that cannot be torn down)
+        for k in range(10 if tier == 'quick' else 120):
+            n += 1
+            kinds = [rng.choice(KINDS) for _ in range(rng.randint(3, 6))]
+            c = make_case('x%d' % n, rng, kinds, (rng.choice(['plain', 'markup', 'nonascii']),), 'plain')
+            w = c['world']
+            ids = [t for cs in w['classes'].values() for t in cs['tests']]
+            w['layers'] = {l: {'kind': 'class', 'bases': [], 'hooks': ['setUp', 'tearDown']} for l in ('L1', 'L2', 'L3')}
+            w['layer_order'] = ['L1', 'L2', 'L3']
+            w['classes'] = {'T' + l: {'tests': ids[i::3], 'layer': l} for i, l in enumerate(('L1', 'L2', 'L3')) if ids[i::3]}
+            c['args'] = [a for a in c['args'] if a not in ('--repeat', '2', '--buffer')]
+            c['repeat'] = 1
+            if k % 2:
+                c['args'] += ['-j', '2']
+            else:
+                for l in w['layers'].values():
+                    l['tearDown'] = 'notimpl'
+            c['cli'] = True
+            cases.append(c)
         # every kind alone and in pairs with plain messages (agreement clauses)
         for kinds in [[k] for k in KINDS] + [list(p) for p in itertools.product(KINDS, repeat=2)]:
             n += 1
             cases.append(make_case('x%d' % n, rng, kinds, ('plain',), 'plain'))
     refs = runlib.compute_refs([c['world'] for c in cases])
     jobs = [{'id': c['id'], 'world': c['world'], 'args': c['args'], 'xml': True, 'stdout_kind': 'file'}
-            for c in cases]
-    results = runlib.run_inproc_many(jobs)
+            for c in cases if not c.get('cli')]
+    inres = iter(runlib.run_inproc_many(jobs))
+    # runs whose layers execute in subprocesses: every process writes its own reports
+    import tempfile as _tf
+    import inproc_worker
+
+    def cli_one(c):
+        d = _tf.mkdtemp(prefix='xmlcli-', dir=runlib.scratch_root())
+        r = runlib.run_cli(c['world'], c['args'] + ['--xml', os.path.join(d, 'xml')], keep_dir=d, timeout=120)
+        r['xml_files'] = inproc_worker.read_xml_reports(os.path.join(d, 'xml'))
+        r['crashed'] = '' if r['rc'] in (0, 1) and 'Traceback (most recent call last)' not in r['stderr'] \
+            else 'rc=%s' % r['rc']
+        return r
+    from concurrent.futures import ThreadPoolExecutor
+    with ThreadPoolExecutor(max_workers=8) as ex:
+        clires = iter(list(ex.map(cli_one, [c for c in cases if c.get('cli')])))
+    results = [next(clires) if c.get('cli') else next(inres) for c in cases]
     recs = [record(c, r, ref) for c, r, ref in zip(cases, results, refs)]
     chk.sample({'world': cases[20]['world'], 'args': cases[20]['args'], 'files': recs[20]['files']})
     fd, path = tempfile.mkstemp(prefix='verif-xml-', suffix='.json')
